@@ -201,7 +201,9 @@ def canon(c):
 
 def replay_paths(sub, chunk):
     from breezy import ui
+    import logging
     ui.ui_factory = ui.SilentUIFactory()
+    logging.getLogger("brz").setLevel(logging.CRITICAL)       # converters and config chatter on stderr
     for k, (path, states) in enumerate(chunk):
         base = os.path.join(sub.workdir, "site%d" % k)
         os.mkdir(base)
@@ -234,9 +236,9 @@ def replay_one(sub, base, path, states):
         name, arg = m.group(1), (m.group(2) or "").strip('"')
         if name not in ("Reconfigure", "Upgrade", "UpgradeShared"):
             sub.machinery("unknown action " + act)
-        # a call the model says never returns gets 15 s, any other 300 s (then it is reported as diverging)
+        # a call the model says never returns gets 15 s, any other 120 s (then it is reported as diverging)
         signal.signal(signal.SIGALRM, _alarm)
-        signal.alarm(15 if st1["last"] == "diverges" else 300)
+        signal.alarm(15 if st1["last"] == "diverges" else 120)
         try:
             if name == "Reconfigure":
                 site.reconfigure(arg)
@@ -311,7 +313,8 @@ def run(ctx):
         l0 = st(p[0][1])["lay"]
         groups.setdefault((l0["tree"], l0["br"], l0["repo"], p[1][0]), []).append(p)
     picked = []
-    keys = sorted(groups, key=repr)
+    # groups whose first step does something come first
+    keys = sorted(groups, key=lambda k: (min(weight(p[:2]) for p in groups[k]), repr(k)))
     while len(picked) < want and any(groups[k] for k in keys):
         for k in keys:
             if groups[k] and len(picked) < want:
